@@ -274,6 +274,12 @@ func NgFile(r *vlib.Rand, small bool, libpcapSafe bool) *File {
 			f.HasStats = true
 			f.Features["interface-statistics"] = true
 		}
+		if !libpcapSafe && r.Chance(1, 12) {
+			if err := w.WriteDecryptionSecretsBlock(0x544c534b, r.Bytes(r.Intn(40))); err != nil && f.WriteErr == "" {
+				f.WriteErr = err.Error()
+			}
+			f.Features["decryption-secrets-block"] = true
+		}
 		d := pktData(r, small)
 		ns += int64(r.Intn(1e9))
 		if r.Chance(1, 10) {
